@@ -6,6 +6,7 @@ import (
 	"encoding/json"
 	"fmt"
 	"hash"
+	"runtime/debug"
 	"sort"
 	"testing"
 )
@@ -189,7 +190,25 @@ func (c *Ctx) AttachPlan(from int, p *Plan) {
 	}
 }
 
-func (c *Ctx) Violated() bool { return len(c.out.Violations) > 0 }
+// KnownSigs holds the signatures listed as known findings for the property
+// being checked (set by the worker from the request). A known finding is
+// recorded and reported like any violation, but it does not stop the run, so
+// exploration continues past a defect that is already on file.
+var KnownSigs = map[string]bool{}
+
+// Violated reports whether a violation that is not a listed known finding has
+// been recorded; engines use it to stop a run.
+func (c *Ctx) Violated() bool {
+	for _, v := range c.out.Violations {
+		if !KnownSigs[v.Property+"|"+v.Signature] {
+			return true
+		}
+	}
+	return false
+}
+
+// IsKnown says whether a signature is a listed known finding.
+func (c *Ctx) IsKnown(prop, sig string) bool { return KnownSigs[prop+"|"+sig] }
 
 func (c *Ctx) finish() *Outcome {
 	c.out.LogHash = hex.EncodeToString(c.hasher.Sum(nil))[:32]
@@ -224,7 +243,7 @@ func Run(t *testing.T, e Engine, p *Plan, keepLog bool) (out *Outcome) {
 	defer func() {
 		if r := recover(); r != nil {
 			out = c.finish()
-			out.HarnessErr = fmt.Sprintf("panic in engine: %v", r)
+			out.HarnessErr = fmt.Sprintf("panic in engine: %v\n%s", r, trimStack(debug.Stack()))
 		}
 	}()
 	e.Execute(c)
